@@ -530,3 +530,7 @@ META = dict(
     assumptions=["A-REAL", "A-PY", "A-ARGMIN", "A-ARGMAX", "A-FIND-PEAKS", "A-NP-FANCY", "A-NAN",
                  "mean_curve is an opaque array of the grid's length in mean_curve_peak (its value: C05)"],
 )
+
+# the constructors of the result objects (contracts/ctor_hvsr.py): the constructors find the peaks once with the default range when the object is complete
+import contracts.ctor_hvsr as _CTOR
+TASKS += [t for t in _CTOR.TASKS if "HvsrCurve.__init__" in t.label or "HvsrTraditional.__init__" in t.label]
